@@ -2,12 +2,12 @@ SPECIFICATION Spec
 CONSTANTS
   Alphabet <- Alpha5
   Ranges <- Rng1
-  MaxLen = 7
+  MaxLen = 6
   Limit = 65535
   Chunked = FALSE
   NoRangeLen = 4
   CodeDen <- Den1
 VIEW View
-INVARIANTS TypeOK PartsOK Partition Complete EncodeOK
+INVARIANTS TypeOK PartsOK Partition Complete EncodeOK PolyOK
 PROPERTIES JoinTotals Progress
 CHECK_DEADLOCK FALSE
